@@ -4,6 +4,7 @@ from vlib.stubs import apply_common
 apply_common()
 import formulas
 from formulas.tokens.operator import Operator
+from vlib.sel import concrete
 from spec.grammar import BIN_OPS, RANK, REPS, full, spell, has_sign_run
 
 OPS = __OPS__                 # binary operators the selector indices range over
@@ -13,8 +14,13 @@ FIX_A = __FIX_A__             # partition: first operator index fixed per genera
 WS = ['', ' ', '  ']
 
 
-def parse(text):
+def _parse(text):
     return formulas.Parser().ast(text)[1][-1].get_expr
+
+
+def parse(text):
+    # the spelling is concrete on every explored path: run the parser natively
+    return concrete(_parse, text)
 
 
 def agree(tree, redundant, ws, lower=False):
